@@ -476,13 +476,12 @@ void f_mult_eq () {
 
     case T_MAPPING:
       {
-        mapping_t *m = compose_mapping (argp->u.map, sp->u.map, 0);
-        if (argp->u.map != sp->u.map)
-          {
-            pop_stack ();
-            push_mapping (m);
-          }
-        assign_svalue (argp, sp);
+        /* composes into the left operand itself (and returns no mapping) */
+        mapping_t *m = argp->u.map;
+
+        compose_mapping (m, sp->u.map, 0);
+        pop_stack ();
+        push_mapping (m);
         break;
       }
 
